@@ -98,6 +98,30 @@ theorem C17_loopback_only (publicPort bound : Nat) (f : FailAt) :
     (∀ pp i lp, Ev.create pp i lp ∈ listen publicPort bound f → pp = publicPort ∧ i = loopback ∧ lp = bound) := by
   cases f <;> simp [listen]
 
+/-- **A retry is a listen of its own.** After a failed attempt nothing is open, and the next attempt — with whatever port the
+OS hands out then — again binds on the loopback interface, asks Tor to forward the public port to exactly *that* port and
+only then resolves (the implementation takes the half-created service out of its configuration again: fix 1d1b0b4). -/
+theorem C17_retry (publicPort b1 b2 : Nat) (f : FailAt) (hf : f ≠ .none) :
+    openPorts (listen publicPort b1 f ++ listen publicPort b2 .none) = [b2] ∧
+    Ev.create publicPort loopback b2 ∈ listen publicPort b2 .none ∧
+    (∀ pp i lp, Ev.create pp i lp ∈ listen publicPort b2 .none → lp = b2) := by
+  cases f with
+  | none => exact absurd rfl hf
+  | config => simp [listen, openPorts]
+  | notConfig => simp [listen, openPorts]
+  | bootstrap => simp [listen, openPorts]
+  | bind => simp [listen, openPorts]
+  | create => simp [listen, openPorts]
+
+/-- **Known finding (C17-relisten-keeps-old-forwarding), as the model has it.** `listen()` called again on an endpoint whose
+service already exists hands out a listener on the new port without any forwarding request: for `b2 ≠ b1` Tor still
+forwards the public port to `b1`, which nobody listens on. -/
+theorem C17_relisten_not_forwarded (publicPort b1 b2 : Nat) :
+    (∀ pp i lp, Ev.create pp i lp ∉ listenAgain publicPort b2) ∧
+    openPorts (listen publicPort b1 .none ++ [.closed b1] ++ listenAgain publicPort b2) = [b2] ∧
+    Ev.ok publicPort ∈ listenAgain publicPort b2 := by
+  simp [listenAgain, listen, openPorts]
+
 example : ¬ Invalid {} ∧ Invalid { hsDir := true, key := true } ∧
     (validate { hsDir := true }).toOption = some { ephemeral := false, auth := .none } := by
   decide +kernel
